@@ -105,7 +105,8 @@ where
             if borrow < 0f64 {
                 return f64::NAN;
             }
-            sum += 1.0 / borrow;
+            // `-0.0` is a zero entry, not a negative one: its reciprocal must not cancel `1.0 / 0.0`
+            sum += 1.0 / borrow.abs();
         }
         if i > 0.0 {
             i / sum
